@@ -316,9 +316,12 @@ big numbers (numbers).  `rtSide norm g T` (decidable) says:
   map, array or `cty.Value` (null cannot say at which level the nil was);
 * the `cty` tags of a struct are distinct and NFC, at least one field has one, and a
   field without a tag — which the bridge does not carry — holds its zero value;
-* no `cty.Value` below a slice, array or map (a cty list/map has one element type),
-  and no `cty.NilVal` (the invalid zero `cty.Value`) in a bridged position.
-The first two are exactly the two recorded known findings; see the counterexamples.
+* below a slice, array or map a `cty.Value` occurs only as the element type itself, the members
+  all of ONE non-dynamic type (`uniformCv`; a cty list/map has one element type — members of
+  different types are refused by `ToCtyValue`, `mixed_cval_refused`); no `cty.NilVal` (the invalid
+  zero `cty.Value`) in a bridged position.
+The first two are exactly the two recorded known findings (`roundtrip_nilptr_counterexample`,
+`roundtrip_nfc_*_counterexample`); the third has `roundtrip_untagged_counterexample`.
 Mis-tagged structs are excluded for a reason of their own: of two fields with one tag
 `structTagIndices` keeps the later (the earlier field is silently not bridged), and a tag
 that is not NFC never matches the normalised attribute name (`ToCtyValue` writes null for
@@ -617,7 +620,9 @@ theorem object_near_miss_witnesses (S : Sched) :
 
 /-- Containers of embedded dynamic values — `[]cty.Value`, `[n]cty.Value`, `map[string]cty.Value` —
 round-trip exactly when the members are all of one type `t` (not the dynamic pseudo-type; `t.equals t`
-holds for every well-formed type, `C07.equals_iff_eq`): the case `rtSide` excludes wholesale by `!hasCval e`. -/
+holds for every well-formed type, `C07.equals_iff_eq`).  (d18: `rtSide` used to exclude every `cty.Value`
+below a container; it now admits this case — `uniformCv` — so `roundtrip_partial` covers it at any
+nesting, e.g. as a struct field; this is the statement on its own.) -/
 theorem roundtrip_cval_containers (norm : String → String) (ks : List String) (ws : List Value) (t : Ty)
     (hne : ws ≠ []) (hty : ∀ w ∈ ws, w.ty = t) (hd : isDynTy t = false) (heq : Ty.equals t t = true)
     (hks : ks.map norm = ks) :
@@ -689,6 +694,17 @@ theorem tocty_no_panic (norm : String → String) (g : GoVal) (ty : Ty) (h : noN
 /-- … while a NaN does make it panic (`big.Float.SetFloat64(NaN)`); the property excludes NaN -/
 theorem tocty_nan_panics : toCty id .nan .number = .panic "NaN" ∧
     toCty id (.slice [.flt (.fin false 1 0 53), .nan]) (.list .number) = .panic "NaN" := ⟨rfl, rfl⟩
+
+/-- `roundtrip_partial` does reach containers of `cty.Value`: a struct with a `[]cty.Value` and a
+`map[string]cty.Value` field (the harness type `c18S8`) meets its side condition -/
+example :
+    let T : GoTy := .struct ["l", "m", "n"] [.slice .cval, .map .cval, .int .wInt true]
+    let g : GoVal := .struct ["l", "m", "n"]
+      [.slice [.cval ⟨.string, .s "a"⟩, .cval ⟨.string, .unk .unref⟩],
+       .map ["k"] [.cval ⟨.list .number, .seq []⟩], .int 3]
+    hasTy g T = true ∧ rtSide id g T = true ∧ ∃ ty, bridgeType id T = .ok ty := by
+  refine ⟨by decide, by decide, _, rfl⟩
+example : rtSide id (.slice [.cval ⟨.string, .s "a"⟩, .cval ⟨.number, .n (Num.ofInt 1)⟩]) (.slice .cval) = false := by decide
 
 /-! non-vacuity of the d18 hypotheses -/
 example : noNaN id sampleG = true := by decide
